@@ -233,3 +233,45 @@ def norm_test(t: ast.AST, pol: bool = True) -> Tuple[str, bool]:
 def nguards(node: ast.AST, kinds: Optional[Sequence[str]] = None) -> List[Tuple[str, bool]]:
     """normalised guards at node; `kinds` filters on Guard.kind ('branch' | 'exit' | 'assert')"""
     return [norm_test(g.expr, g.polarity) for g in dominating(node)[1] if kinds is None or g.kind in kinds]
+
+
+def name_assigned_from(fnode: ast.AST, pred, what: str) -> str:
+    """the local name that is assigned a value satisfying `pred(value_expr)` (e.g. the result of a given call);
+    AnalysisError if there is none or several - used to discover a variable by its role instead of by its spelling"""
+    hits = []
+    for n in walk_local(fnode):
+        tgt = val = None
+        if isinstance(n, ast.Assign) and len(n.targets) == 1:
+            tgt, val = n.targets[0], n.value
+        elif isinstance(n, ast.AnnAssign) and n.value is not None:
+            tgt, val = n.target, n.value
+        if tgt is None:
+            continue
+        if isinstance(tgt, ast.Name) and pred(strip_cast(val)):
+            hits.append(tgt.id)
+        elif isinstance(tgt, (ast.Tuple, ast.List)) and isinstance(val, (ast.Tuple, ast.List)) and len(tgt.elts) == len(val.elts):
+            for t, v in zip(tgt.elts, val.elts):
+                if isinstance(t, ast.Name) and pred(strip_cast(v)):
+                    hits.append(t.id)
+    hits = sorted(set(hits))
+    if len(hits) != 1:
+        raise AnalysisError(f"cannot identify {what}: {len(hits)} candidate local(s) {hits}")
+    return hits[0]
+
+
+def is_call_to(*names):
+    def pred(v):
+        return isinstance(v, ast.Call) and last_name(v) in names
+
+    return pred
+
+
+def rguards(fnode: ast.AST, node: ast.AST, kinds=None) -> List[Tuple[str, bool]]:
+    """normalised guards at node with single-definition locals resolved (spelling-independent)"""
+    out = []
+    for g in dominating(node)[1]:
+        if kinds is not None and g.kind not in kinds:
+            continue
+        r = resolve_local(fnode, g.expr)
+        out.append(norm_test(r, g.polarity))
+    return out
